@@ -275,6 +275,13 @@ def stores(body, defs, keep=(), lv=True, _guards=(), _loops=()):
                 s.value = canon(st.value, defs, keep, lv=lv).replace(" ", "")
                 s.guards, s.loops = tuple(_guards), tuple(_loops)
                 out.append(s)
+        elif isinstance(st, ast.Expr) and isinstance(st.value, ast.Call):
+            # effectful call statement (list.append, set.add, np.add.at, ...)
+            s = Store()
+            s.node, s.tnode, s.vnode, s.op, s.target = st, None, st.value, "call", None
+            s.value = canon(st.value, defs, keep, lv=lv).replace(" ", "")
+            s.guards, s.loops = tuple(_guards), tuple(_loops)
+            out.append(s)
         elif isinstance(st, ast.Return):
             s = Store()
             s.node, s.tnode, s.vnode, s.op, s.target = st, None, st.value, "return", None
